@@ -632,9 +632,11 @@ def hexs(vals, width):
 def confirm(sources, assign, run_fn, ref_fn, nbits):
     """a symbolic mismatch is reported only with a concrete member of the case on which the two interpretations differ"""
     eq = eq_out(nbits)
-    for pat in (0, -1, 0x5555555555555555, 0xaaaaaaaaaaaaaaaa, 0x3333333333333333, 0x0f0f0f0f0f0f0f0f, 1, 0x80, 0x8000):
+    pats = (0, -1, 0x5555555555555555, 0xaaaaaaaaaaaaaaaa, 0x3333333333333333, 0x0f0f0f0f0f0f0f0f, 1, 0x80, 0x8000, 0x1248124812481248, 0x96c3a55a0ff01e87)
+    for j in range(2 * len(pats)):
         try:
-            vals = [s_.concrete(assign, pat) for s_ in sources]
+            # every source gets its own bit pattern (a permutation of sources must be visible), rotated per round
+            vals = [s_.concrete(assign, pats[(j + 3 * i_) % len(pats)] if j < len(pats) else (pats[(j + i_) % len(pats)] >> (5 * i_ % 17))) for i_, s_ in enumerate(sources)]
             got, want = run_fn(vals), ref_fn(vals)
         except (Infeasible, Unsupported, TypeError):
             continue
